@@ -414,6 +414,30 @@ func head(s string) string {
 	return s
 }
 
+// U+FFFD (what a decoder makes of bytes that are not UTF-8) and such bytes themselves inside a text: what follows them
+// is part of the text like everything else - an unparsable remainder makes the text no pattern.
+func TestReplacementCharacterAndInvalidBytes(t *testing.T) {
+	rec.Begin(t)
+	rec.Rule(rule + ruleMore)
+	if rec.Shard() != 0 {
+		t.Skip("seed independent: shard 0 only")
+	}
+	for _, base := range []string{"ab", "x", "[a-z]+", "(a|b)", "a{2}", ""} {
+		for _, bad := range []string{"\uFFFD", "\xff", "\xc3", "\xe4\xb8", "\uFFFD\uFFFD", "\xed\xa0\x80"} {
+			for _, junk := range []string{")(", "[9-0]", "{", "\\", "a**", "(", "|*", "[z-a]", "x{3,1}"} {
+				s := base + bad + junk
+				ok, err := checkText(s)
+				rec.Case(s, true, "replacement_character_or_invalid_bytes")
+				if err != nil {
+					rec.Fail(t, "text", input{Text: s, Mode: "any"}, "%v", err)
+				} else if ok {
+					rec.Fail(t, "text", input{Text: s, Mode: "any"}, "text %q is accepted although %q cannot be the end of a pattern", s, junk)
+				}
+			}
+		}
+	}
+}
+
 // Counts that no integer holds: a text with such a count may be rejected (it is grammatical, but nothing can be built
 // for it); it must never be accepted as if it said something else, least of all when its minimum exceeds its maximum.
 func TestOverflowingCounts(t *testing.T) {
